@@ -2,6 +2,7 @@ import Rv.Props.C07
 import Rv.Props.C09
 import Rv.Props.SrcRange
 import Rv.Props.SrcRangeParse
+import Rv.Props.SrcIfRange
 #print axioms Rv.Props.C07.parse_total
 #print axioms Rv.Props.C07.parse_in_int64
 #print axioms Rv.Props.C07.slice_inside
@@ -33,3 +34,6 @@ import Rv.Props.SrcRangeParse
 #print axioms Rv.Props.SrcRangeParse.parseRangeHeader_eq
 #print axioms Rv.Props.SrcRangeParse.parseRangeHeader_total
 #print axioms Rv.Props.SrcRangeParse.parseRangeHeader_never_panics
+#print axioms Rv.Props.SrcIfRange.ifRangeDecision_total
+#print axioms Rv.Props.SrcIfRange.ifRangeDecision_core
+#print axioms Rv.Props.SrcIfRange.ifRangeDecision_eq
